@@ -1,7 +1,7 @@
 /-
 C11 — bridging lemmas: what is regenerated from `snowfakery/template_funcs.py` on every run
 (`Gen.BoundedFuncs.*`) coincides with what the hand-written model `SnowModel.Bounded` assumes.
-A change of the `randrange` arguments, of the weight parsing, of `probability or when`, of the
+A change of the `randrange` arguments, of the weight parsing, of the `choice` returns, of the
 `replace`/`astimezone` call kind, of the order comparison or of the statement skeletons of the
 five functions changes the generated file, and one of these lemmas stops type-checking.
 -/
@@ -39,14 +39,15 @@ theorem weight_parse_body :
        "return float(weight_str)"] := rfl
 theorem weight_strip : Gen.BoundedFuncs.weightStrip = "%" := rfl
 
-/-- `choice`: `if probability: probability = parse_weight_str(…)`; returns
-    `(probability or when, pick)` — the shape `choiceWeight` = `pyOr (parse …) when` models -/
+/-- `choice` (cfed176): `if probability is not None:` parse and return `(probability, pick)`;
+    otherwise `(when, pick)` — the shape `choiceWeight r when = if r ≠ None then parse r else when` -/
 theorem choice_body :
     Gen.BoundedFuncs.choiceBody =
-      ["if probability: ;     probability = parse_weight_str(self.context, probability)",
-       "return (probability or when, pick)"] := rfl
-theorem choice_weight_expr : Gen.BoundedFuncs.choiceWeightExpr = ["Or", "probability", "when"] := rfl
-theorem choice_pick_expr : Gen.BoundedFuncs.choicePickExpr = "pick" := rfl
+      ["if probability is not None: ;     probability = parse_weight_str(self.context, probability) ;     return (probability, pick)",
+       "return (when, pick)"] := rfl
+theorem choice_guards : Gen.BoundedFuncs.choiceGuards = ["probability is not None"] := rfl
+theorem choice_weight_exprs : Gen.BoundedFuncs.choiceWeightExprs = ["probability", "when"] := rfl
+theorem choice_pick_exprs : Gen.BoundedFuncs.choicePickExprs = ["pick", "pick"] := rfl
 
 /-- `weighted_choice`: weights are the first tuple components, options the second, one draw of
     `random.choices` -/
@@ -73,10 +74,12 @@ theorem random_choice_comprehensions :
 
 /-! #### datetime normalisation -/
 
-/-- the call kind in `datetime()` is the one the model uses (`replace`: D08) -/
+/-- the call kind in `datetime()` is the one the model uses (f914bf1: `astimezone` when the value
+    carries a non-zero offset, else `replace`) -/
 theorem datetime_tz_call : tzCallOfString Gen.BoundedFuncs.datetimeTzCall = some codeTzCall := by
   decide
-theorem datetime_tz_call_args : Gen.BoundedFuncs.datetimeTzCallArgs = ["tzinfo=timezone"] := rfl
+theorem datetime_tz_call_args :
+    Gen.BoundedFuncs.datetimeTzCallArgs = ["timezone", "|", "tzinfo=timezone"] := rfl
 theorem datetime_zone_normalise :
     Gen.BoundedFuncs.datetimeZoneNormalise = "timezone = _normalize_timezone(timezone)" := rfl
 /-- naive parsed values get UTC attached (wall clock kept) in both branches of
@@ -89,18 +92,25 @@ theorem parse_spec_tz_calls :
 
 theorem orderCond_eq (e s : Int) : Gen.BoundedFuncs.orderCond e s = decide (e < s) := rfl
 
-/-- the model's order check is the pinned comparison -/
+theorem equalCond_eq (e s : Int) : Gen.BoundedFuncs.equalCond e s = decide (e = s) := rfl
+theorem equal_return :
+    Gen.BoundedFuncs.equalReturn = "start_date.astimezone(timezone) if timezone else start_date" := rfl
+
+/-- the model's order check and equal-bounds check are the pinned comparisons -/
 theorem datetimeBetweenWith_uses_pin (call : TzCall) (c : Clock) (s e : DTSpec) (d : Nat) :
     datetimeBetweenWith call c s e d =
       if Gen.BoundedFuncs.orderCond (normalise call c e) (normalise call c s) = true then .orderError
+      else if Gen.BoundedFuncs.equalCond (normalise call c e) (normalise call c s) = true then
+        .value (normalise call c s)
       else fakerBetween (normalise call c s) (normalise call c e) d := by
-  simp [datetimeBetweenWith, Gen.BoundedFuncs.orderCond]
+  simp [datetimeBetweenWith, Gen.BoundedFuncs.orderCond, Gen.BoundedFuncs.equalCond]
 
 theorem datetime_between_body :
     Gen.BoundedFuncs.datetimeBetweenBody =
       ["start_date = self.datetime(start_date)", "end_date = self.datetime(end_date)",
        "timezone = _normalize_timezone(timezone)",
        "if end_date < start_date: ;     raise DataGenError('End date is before start date')",
+       "if end_date == start_date: ;     return start_date.astimezone(timezone) if timezone else start_date",
        "return self._faker_for_dates.date_time_between(start_date, end_date, tzinfo=timezone)"] := rfl
 
 theorem date_dispatch_guard :
